@@ -516,8 +516,8 @@ across the placeholder, see `inline_inside_regex_is_not_a_placeholder`); the val
 literal does not begin with `/`, `-`, `:`, `.` or `$` (runes `parseRegex` and `parseSegmentedIdents`
 look for in the rune reader — true of every string, non-negative number, boolean and duration
 spelling). Then parsing the template and parsing the inlined text, with the same parameter map, give
-**the same expression tree**, or both fail with **the same error up to its position** (`Fail.erase`:
-same message, same found / expected tokens; only line and column may differ). Calls, regex operators
+**the same expression tree**, or both fail with **the same error up to its position** (`SameResult`;
+`Fail.erase`: same message, same found / expected tokens; only line and column may differ). Calls, regex operators
 and parenthesised groups around or behind the placeholder are covered (`f(x, $p)`, `a =~ $p`). -/
 theorem inline_equiv_expr_partial (params : List (Str × BoundValue)) (name lit kk : Str) (v : BoundValue)
     (template inlined a ws : Str) (n : Nat) (tbl : List (Char × Char))
@@ -530,10 +530,7 @@ theorem inline_equiv_expr_partial (params : List (Str × BoundValue)) (name lit 
     (hpre : ∀ x ∈ a, x ≠ '/' ∧ x ≠ eofRune)
     (hre : v.tok ≠ .REGEX)
     (hlit : ∃ lh lt, lit = lh :: lt ∧ lh ≠ '/' ∧ lh ≠ '-' ∧ lh ≠ ':' ∧ lh ≠ '.' ∧ lh ≠ '$') :
-    match parseExprText template params tbl, parseExprText inlined params tbl with
-    | .ok e1, .ok e2 => e1 = e2
-    | .error f1, .error f2 => f1.erase = f2.erase
-    | _, _ => False := by
+    SameResult (parseExprText template params tbl) (parseExprText inlined params tbl) := by
   obtain ⟨lh, lt, rfl, hlh⟩ := hlit
   have hc : ICtx.OK ⟨params, name, lh, lt, kk ++ [eofRune], ws, v⟩ := ⟨hv, hws, hre, hlh⟩
   have h1 : (Cursor.ofRunes template).chars =
@@ -567,13 +564,31 @@ theorem inline_equiv_expr_string (params : List (Str × BoundValue)) (name kk s 
     (hb : a = [] ∨ (ws ≠ [] ∧
       (scanN n (Cursor.ofRunes template)).rest.length = (ws ++ ('$' :: (name ++ (kk ++ [eofRune])))).length))
     (hpre : ∀ x ∈ a, x ≠ '/' ∧ x ≠ eofRune) :
-    match parseExprText template params tbl, parseExprText inlined params tbl with
-    | .ok e1, .ok e2 => e1 = e2
-    | .error f1, .error f2 => f1.erase = f2.erase
-    | _, _ => False :=
+    SameResult (parseExprText template params tbl) (parseExprText inlined params tbl) :=
   inline_equiv_expr_partial params name (quoteString s) kk _ template inlined a ws n tbl
     (inlinable_string params name _ s hn hk hex hbound) hws hT hI hb hpre
     (by show Token.STRING ≠ .REGEX; decide)
     ⟨'\'', _, rfl, by decide, by decide, by decide, by decide, by decide⟩
+
+/-- Why the text in front of the placeholder must not contain a regex literal that reaches over it:
+in `a =~ /x $p/` the `$p` is not a placeholder at all (`ScanRegex` reads it as part of the regex), so
+writing the literal there gives a different regex. The plain scanner does see a `$p` token after white
+space, i.e. the token-level hypotheses alone do not exclude this text. (Not a defect of the code.) -/
+theorem inline_inside_regex_is_not_a_placeholder :
+    exprOf ['a', ' ', '=', '~', ' ', '/', 'x', ' ', '$', 'p', '/'] [(['p'], .str ['q'])] = some ['a', ' ', '=', '~', ' ', '/', 'x', ' ', '$', 'p', '/'] ∧
+    exprOf ['a', ' ', '=', '~', ' ', '/', 'x', ' ', '\'', 'q', '\'', '/'] [(['p'], .str ['q'])] = some ['a', ' ', '=', '~', ' ', '/', 'x', ' ', '\'', 'q', '\'', '/'] := by
+  constructor <;> decide +kernel
+
+/-- Kernel-checked instances (p ↦ `x y`): `a = $p AND b > 1` and `a = 'x y' AND b > 1` give the same
+tree; so do `f(x, $p)` and `f(x, 'x y')` (a placeholder at the regex look-ahead point of a call); after
+a regex operator, `a =~ $p` and `a =~ 'x y'` both fail. -/
+theorem inline_examples :
+    exprOf ['a', ' ', '=', ' ', '$', 'p', ' ', 'A', 'N', 'D', ' ', 'b', ' ', '>', ' ', '1'] [(['p'], .str ['x', ' ', 'y'])] = some ['a', ' ', '=', ' ', '\'', 'x', ' ', 'y', '\'', ' ', 'A', 'N', 'D', ' ', 'b', ' ', '>', ' ', '1'] ∧
+    exprOf ['a', ' ', '=', ' ', '\'', 'x', ' ', 'y', '\'', ' ', 'A', 'N', 'D', ' ', 'b', ' ', '>', ' ', '1'] [(['p'], .str ['x', ' ', 'y'])] = some ['a', ' ', '=', ' ', '\'', 'x', ' ', 'y', '\'', ' ', 'A', 'N', 'D', ' ', 'b', ' ', '>', ' ', '1'] ∧
+    exprOf ['f', '(', 'x', ',', ' ', '$', 'p', ')'] [(['p'], .str ['x', ' ', 'y'])] = some ['f', '(', 'x', ',', ' ', '\'', 'x', ' ', 'y', '\'', ')'] ∧
+    exprOf ['f', '(', 'x', ',', ' ', '\'', 'x', ' ', 'y', '\'', ')'] [(['p'], .str ['x', ' ', 'y'])] = some ['f', '(', 'x', ',', ' ', '\'', 'x', ' ', 'y', '\'', ')'] ∧
+    exprOf ['a', ' ', '=', '~', ' ', '$', 'p'] [(['p'], .str ['x', ' ', 'y'])] = none ∧
+    exprOf ['a', ' ', '=', '~', ' ', '\'', 'x', ' ', 'y', '\''] [(['p'], .str ['x', ' ', 'y'])] = none := by
+  refine ⟨?_, ?_, ?_, ?_, ?_, ?_⟩ <;> decide +kernel
 
 end InfluxQL.C07
